@@ -170,6 +170,21 @@ Theorem C15_path_clauses_piecewise :
 Proof. exact clauses_match_spec. Qed.
 Print Assumptions C15_path_clauses_piecewise.
 
+(* GetPathDepth (as repaired by 7a6d758) counts exactly the clauses MatchesPath tokenises and PutPathString files:
+   the path, less one leading '/', cut at EVERY '/' (empty clauses included; the empty path has none).  Hence
+   MatchesPath against one stored path is exactly clause-by-clause matching, for every subject path. *)
+Theorem C15_path_depth_clauses :
+  forall p, path_depth p = length (hard_split ch_slash (skip_slash p)).
+Proof. exact path_depth_clauses. Qed.
+Print Assumptions C15_path_depth_clauses.
+
+Theorem C15_path_matches_exact :
+  forall ms subject,
+    path_matches ms subject = true <->
+    Forall2 (fun m t => clause_ok1 m t = true) ms (hard_split ch_slash (skip_slash subject)).
+Proof. exact path_matches_exact. Qed.
+Print Assumptions C15_path_matches_exact.
+
 (* The laws of the client interface Pat/PatSpec.v hold for the model (used by C05). *)
 Theorem C15_model_laws :
   forall engine, (forall re, ere_compile re <> CUnsupported -> engine re = ere_engine re) ->
@@ -236,3 +251,9 @@ Example C15_read_ranges_example :
   read_ranges (print_range_pattern true [RSingle 7; RBetween 20 10; RUpTo 3; RFrom 4000000000]) =
   Some (true, [RSingle 7; RBetween 20 10; RUpTo 3; RFrom 4000000000]).
 Proof. vm_compute. reflexivity. Qed.
+
+(* a subject path with an empty clause: "xy/" has two clauses and is matched by the two-clause pattern "*/*" *)
+Example C15_path_example :
+  path_depth [120; 121; 47] = 2%nat /\ path_depth [47] = 0%nat /\ path_depth [97; 47; 47; 98] = 3%nat /\
+  match path_put ere_engine [42; 47; 42] with Some ms => path_matches ms [120; 121; 47] | None => false end = true.
+Proof. vm_compute. repeat split; reflexivity. Qed.
